@@ -1,8 +1,8 @@
 #!/bin/bash
-# tools/process_red.sh <property> : confirm /tmp/redout/<P>-{1,2,3} in /tmp/red-<P>, run the check against each, print a summary
-P=$1; W=/tmp/red-$P
+# tools/process_red.sh <property> [round] : confirm /tmp/redout<round>/<P>-{1,2,3} in /tmp/red<round>-<P>, run the check against each, print a summary
+P=$1; R=${2:-}; W=/tmp/red$R-$P
 for n in 1 2 3; do
-  S=/tmp/redout/$P-$n
+  S=/tmp/redout$R/$P-$n
   [ -f $S/patch.diff ] || { echo "$P-$n: no patch"; continue; }
   echo "=== $P-$n: $(python3 -c "import json;print(json.load(open('$S/meta.json'))['title'])")"
   tools/confirm_seed.sh $W $S 2>&1 | sed 's/^/   /'
